@@ -1,2 +1,31 @@
-(* C05 -- placeholder while the proofs are being built *)
-From Verif Require Import Base.GoInt Json.Ext Generated.JsonParseGen Json.Grammar Json.Spec.
+(* C05 -- json.Valid and the shared syntax recogniser accept exactly RFC 8259.
+   json_Valid, json_decoder_parseValue, json_internalParseFlags, json_escapeIndex are REGENERATED from
+   /repo/json/{json,parse,string}.go on every run (Generated/JsonParseGen.v); the grammar is Json/Grammar.v. *)
+From Verif Require Import Base.GoInt Json.Ext Generated.JsonParseGen Json.Grammar Json.Spec Json.ValidProofs.
+
+(* Valid(b) = the RFC 8259 recogniser, for EVERY byte string *)
+Theorem valid_agrees : valid_agrees_statement.
+Proof. exact ValidProofs.valid_agrees. Qed.
+
+(* hence Valid = encoding/json.Valid whenever at most 10000 containers are open at once *)
+Theorem valid_std : valid_std_statement.
+Proof. exact ValidProofs.valid_std. Qed.
+
+(* parseValue -- the recogniser every syntax-only consumer calls (RawMessage on encode and decode, skipped
+   values, MarshalJSON output, Decoder framing) -- accepts exactly the grammar and consumes exactly the value,
+   for every sound flags word: the 8/16-byte quote search and the whole-input printable/no-backslash
+   shortcuts of parseString are exact *)
+Theorem parse_value_grammar : parse_value_grammar_statement.
+Proof. exact ValidProofs.parse_value_grammar. Qed.
+
+(* the flags computed from the whole input are sound for every suffix of it *)
+Theorem internal_flags_sound : internal_flags_sound_statement.
+Proof. exact ValidProofs.internal_flags_sound. Qed.
+Theorem internal_flags_sound_untrimmed_refuted : ~ internal_flags_sound_untrimmed_statement.
+Proof. exact ValidProofs.internal_flags_sound_statement_refuted. Qed.
+
+(* escapeIndex: what the string encoder relies on holds; what its documentation says does not *)
+Theorem escape_index : escape_index_statement.
+Proof. exact ValidProofs.escape_index_spec. Qed.
+Theorem escape_index_doc_refuted : ~ escape_index_doc_statement.
+Proof. exact ValidProofs.escape_index_statement_refuted. Qed.
